@@ -39,7 +39,7 @@ Opens == { Tok("g", "", 1, FALSE, <<>>), Tok("g", "a", 3, FALSE, <<>>), Tok("g",
            \* viewBox with a non-zero origin and another aspect ratio than its viewport: default alignment (attribute mostly omitted:
            \* nothing may be inherited from an enclosing svg) and preserveAspectRatio="none" (two different scale factors)
            Tok("svg", "", 0, FALSE, <<A(5), A(5), A(60), A(20), <<I(-10), I(5), I(20), I(20)>>, XMid>>),
-           Tok("svg", "", 0, FALSE, <<A(5), A(5), A(60), A(20), <<I(-10), I(5), I(20), I(20)>>, <<"none", "">>>>) } \cup
+           Tok("svg", "", 0, FALSE, <<A(5), A(5), A(60), A(20), <<I(-10), I(5), I(60), I(10)>>, <<"none", "">>>>) } \cup    \* (x scale exactly 1, y scale 2)
          (IF Full THEN { Tok("svg", "s", 2, FALSE, <<NoL, NoL, A(96), A(48), <<I(0), I(0), I(0), I(10)>>, XMid>>),
                          Tok("g", "", 6, FALSE, <<>>), Tok("svg", "", 0, FALSE, <<Pc(10), NoL, NoL, NoL, <<I(0), I(0), I(10), I(20)>>, <<"none", "">>>>) } ELSE {})
 Leaves == { Tok("rect", "b", 0, FALSE, <<A(1), A(2), A(30), A(40), NoL, NoL>>),
